@@ -68,6 +68,21 @@ struct Shared {
     root: Root,
     /// The marker of the last committed overlay. `None` if the last commit was not an overlay.
     last_commit_marker: Option<OverlayMarker>,
+    /// Incremented by every commit which changes the root (rollbacks are commits as well). A changeset prepared directly on
+    /// the committed state is only valid as long as this has not moved: comparing roots alone cannot
+    /// tell "nothing was committed" from "something was committed and later undone".
+    commit_epoch: u64,
+}
+
+impl Shared {
+    /// Move to the root of a commit which is being accepted. A commit which leaves the root as it is
+    /// (nothing written, or the same values written again) invalidates nothing.
+    fn advance(&mut self, new_root: Root) {
+        if self.root != new_root {
+            self.commit_epoch += 1;
+        }
+        self.root = new_root;
+    }
 }
 
 /// Whether a key was read, written, or both, along with old and new values.
@@ -259,6 +274,7 @@ impl<T: HashAlgorithm> Nomt<T> {
             shared: Arc::new(Mutex::new(Shared {
                 root: Root(root),
                 last_commit_marker: None,
+                commit_epoch: 0,
             })),
             access_lock: Arc::new(RwLock::new(())),
             metrics,
@@ -342,9 +358,15 @@ impl<T: HashAlgorithm> Nomt<T> {
             None
         };
 
-        let prev_root = live_overlay
-            .parent_root()
-            .unwrap_or_else(|| self.root().into_inner());
+        // A session directly on the committed state remembers the commit epoch it started from.
+        // Sessions on overlays are ordered by the overlay parent markers instead.
+        let (prev_root, base_epoch) = match live_overlay.parent_root() {
+            Some(parent_root) => (parent_root, None),
+            None => {
+                let shared = self.shared.lock();
+                (shared.root.into_inner(), Some(shared.commit_epoch))
+            }
+        };
 
         Session {
             store,
@@ -360,6 +382,7 @@ impl<T: HashAlgorithm> Nomt<T> {
             overlay: live_overlay,
             witness_mode: params.witness,
             access_guard,
+            base_epoch,
             prev_root: Root(prev_root),
             _marker: std::marker::PhantomData,
         }
@@ -509,6 +532,8 @@ pub struct Session<T> {
     // Note: this needs to be after rollback_delta and merkle_updater in declaration order,
     // so this is dropped after all read transactions are taken, even when the session is dropped.
     access_guard: Option<ArcRwLockReadGuard<parking_lot::RawRwLock, ()>>,
+    // the commit epoch this session started from. `None` for sessions on top of an overlay.
+    base_epoch: Option<u64>,
     prev_root: Root,
     _marker: std::marker::PhantomData<T>,
 }
@@ -632,6 +657,7 @@ impl<T: HashAlgorithm> Session<T> {
             rollback_delta,
             parent_overlay: self.overlay,
             prev_root: self.prev_root,
+            base_epoch: self.base_epoch,
             take_global_guard: self.access_guard.is_some(),
         })
     }
@@ -650,6 +676,8 @@ pub struct FinishedSession {
     rollback_delta: Option<rollback::Delta>,
     parent_overlay: LiveOverlay,
     prev_root: Root,
+    // the commit epoch the session started from. `None` if the session was on top of an overlay.
+    base_epoch: Option<u64>,
     // INTERNAL: whether to take a write guard while committing. always true except during rollback.
     take_global_guard: bool,
 }
@@ -683,13 +711,16 @@ impl FinishedSession {
             .collect();
         let values = self.value_transaction.into_iter().collect();
 
-        self.parent_overlay.finish(
-            self.prev_root.into_inner(),
-            self.merkle_output.root,
-            updated_pages,
-            values,
-            self.rollback_delta,
-        )
+        let base_epoch = self.base_epoch;
+        self.parent_overlay
+            .finish(
+                self.prev_root.into_inner(),
+                self.merkle_output.root,
+                updated_pages,
+                values,
+                self.rollback_delta,
+            )
+            .with_base_epoch(base_epoch)
     }
 
     /// Commit this session to disk directly.
@@ -719,7 +750,15 @@ impl FinishedSession {
                     shared.root
                 );
             }
-            shared.root = Root(self.merkle_output.root);
+            if self
+                .base_epoch
+                .map_or(false, |epoch| epoch != shared.commit_epoch)
+            {
+                anyhow::bail!(
+                    "Changeset no longer valid (something was committed since it was prepared)"
+                );
+            }
+            shared.advance(Root(self.merkle_output.root));
             shared.last_commit_marker = None;
         }
 
@@ -774,6 +813,14 @@ impl FinishedSession {
                 nomt.shared.lock().root
             );
         }
+        if self
+            .base_epoch
+            .map_or(false, |epoch| epoch != nomt.shared.lock().commit_epoch)
+        {
+            anyhow::bail!(
+                "Changeset no longer valid (something was committed since it was prepared)"
+            );
+        }
 
         if let Some(rollback_delta) = self.rollback_delta {
             // UNWRAP: if rollback_delta is `Some`, then rollback must be also `Some`.
@@ -795,7 +842,7 @@ impl FinishedSession {
         {
             // we hold the write guard: the root cannot have changed since the check above.
             let mut shared = nomt.shared.lock();
-            shared.root = Root(self.merkle_output.root);
+            shared.advance(Root(self.merkle_output.root));
             shared.last_commit_marker = None;
         }
 
@@ -856,9 +903,17 @@ impl Overlay {
                     shared.root
                 );
             }
+            if self
+                .base_epoch()
+                .map_or(false, |epoch| epoch != shared.commit_epoch)
+            {
+                anyhow::bail!(
+                    "Changeset no longer valid (something was committed since it was prepared)"
+                );
+            }
             // only an accepted overlay counts as committed for its descendants.
             let marker = self.mark_committed();
-            shared.root = root;
+            shared.advance(root);
             shared.last_commit_marker = Some(marker);
         }
 
@@ -922,9 +977,17 @@ impl Overlay {
                     shared.root
                 );
             }
+            if self
+                .base_epoch()
+                .map_or(false, |epoch| epoch != shared.commit_epoch)
+            {
+                anyhow::bail!(
+                    "Changeset no longer valid (something was committed since it was prepared)"
+                );
+            }
             // only an accepted overlay counts as committed for its descendants.
             let marker = self.mark_committed();
-            shared.root = root;
+            shared.advance(root);
             shared.last_commit_marker = Some(marker);
         }
 
